@@ -600,3 +600,33 @@ def double_cancel_family(thin: int = 1) -> List[dict]:
                             steps.extend(copy.deepcopy(DRAIN))
                             cases.append({"pools": [{"cls": "TaskPool", "size": size}], "steps": steps})
     return cases[::thin] if thin > 1 else cases
+
+
+def abandon_then_close_family(thin: int = 1) -> List[dict]:
+    """The caller of a blocked flush() gives up (is cancelled); asyncio.gather thereby cancels the task flush was waiting for, which
+    sits in its slow end callback and now ends in asyncio's cancelled state. Healthy tasks are still running when the pool is closed:
+
+        spawn 3 (slow end callback) ; tick 3 ; gate 0 (one returns) ; tick 1 ; flush (actor) ; tick a ; abandon ; tick b ;
+        gather_and_close ; tick c ; gate k ; settle ; drain"""
+    cases: List[dict] = []
+    slow = {"async": True, "wait": True}
+    for size in (3, None):
+        for kind, extra in (("apply", {"num": 3}), ("map", {"n": 4, "nc": 3})):
+            for re_ in (False, True):
+                for place in ("eager", "task"):
+                    for a, b, c in itertools.product(range(1, 3), range(3), range(2)):
+                        for k in range(3):
+                            sp = {"op": "spawn", "pool": 0, "kind": kind, "place": "inline", "ecb": dict(slow), "worker": {"script": [["wait"]], "fname": "w"}, **extra}
+                            steps = [sp, {"op": "tick", "k": 3}, {"op": "gate", "k": 0, "place": "inline"}, {"op": "tick", "k": 1},
+                                     {"op": "flush", "pool": 0, "place": "task"}, {"op": "tick", "k": a}, {"op": "abandon", "k": 0, "place": "inline"}]
+                            _ticks(steps, b)
+                            cl = {"op": "close", "pool": 0, "place": place}
+                            if re_:
+                                cl["re"] = True
+                            steps.append(cl)
+                            _ticks(steps, c)
+                            steps.append({"op": "gate", "k": k, "place": "inline"})
+                            steps.append({"op": "settle"})
+                            steps.extend(copy.deepcopy(DRAIN))
+                            cases.append({"pools": [{"cls": "TaskPool", "size": size}], "steps": steps})
+    return cases[::thin] if thin > 1 else cases
